@@ -146,7 +146,8 @@ META = {
     "text": "Decides that all effective-Hamiltonian forms used by the chain DMRG code (4 dense, 7 matrix-vector, 4 diagonal specs, every "
             "configuration) are the same canonical network, i.e. the direct and iterative solvers see one operator, for all inputs and not "
             "only real-symmetric ones; for the tree optimiser, that the sweep (abstractly run on symbolic trees) reads only fresh environments, solves at the "
-            "gauge centre, optimises every bond and that hop_expr2 is the canonical two-site network. The variational bound and convergence themselves are numerical and are not decided.",
+            "gauge centre, optimises every bond and that hop_expr2 is the canonical two-site network. The variational bound and convergence themselves are numerical and are not decided."
+            ' optimize_mps is run abstractly over the gauge flags of its input: the state is orthonormalised before environments are built and the environment side matches the gauge.',
     "note": "Roles are bound by the kernels' parameter positions; letters and variable names are irrelevant. A kernel configuration the "
             "interpreter cannot follow stops the analysis (exit 2).",
     "design_ref": "DESIGN.md 3.2, 4 (C08)",
